@@ -69,7 +69,16 @@ def manager():
 # values that begin and end with a quote character, nested quotes, values that are themselves quoted strings
 WRAPPED = ['"ok"', "'single'", '"', "'", "''", '""', '"a b"', "'a b'", "'a\"b'", '"it\'s"', "\"'x'\"", "'\"x\"'", '"" ""', "'' x ''",
            '"x', "x'", '"ok" ', "'a' 'b'", '"\\"', "'\t'"]
-PLANS = [["x"], ["x", "x"], ["x", "x", "x"], ["x", "p", "x"], ["p", "x", "x"], ["x", "o", "x"], ["x", "o", "p", "x", "x"], ["o", "x", "p", "o", "x"]]
+PLANS = [["x"], ["x", "x"], ["x", "x", "x"], ["x", "p", "x"], ["p", "x", "x"], ["x", "o", "x"], ["x", "o", "p", "x", "x"], ["o", "x", "p", "o", "x"],
+         ["t", "x"], ["x", "t", "x"], ["T", "x", "x"], ["t", "t", "x"], ["x", "p", "t", "o", "T", "x"], ["t", "x", "t", "x"]]
+# steps: x execute the line | o execute another line | p parse_partial(line) | t / T the console's CommandBuffer on this manager: set the
+# text, render, <TAB> forwards / backwards (twice), render
+
+
+class _Master:
+    """the part of a master the console's CommandBuffer uses"""
+    def __init__(self, cm): self.commands = cm
+
 
 
 class _WitnessStale(Exception):
@@ -196,8 +205,9 @@ class Check(PropertyCheck):
             "escape-sequence fragments and non-ASCII plus values wrapped in / consisting of quote characters, (c) raw command lines over "
             "the same alphabet (split rule), (d) every signature shape (t.s/t.v *rest, t.one(str), t.two(str, verbatim), t.mix(verbatim, *str), "
             "t.none()) with matching and non-matching argument counts. Every case runs on ONE fresh CommandManager and executes its line 1–3 times, interleaved "
-            "with parse_partial calls and another line (plans x/p/o); the oracle and the (stateless) model are applied to every "
-            "execution, and all executions must agree. distinct = distinct "
+            "with parse_partial calls and another line (plans x/p/o); steps t/T drive the console's real CommandBuffer (set_text, render, <TAB> forwards/backwards) on that manager, "
+            "the oracle and the (stateless) model are "
+            "applied to every execution, and all executions must agree. distinct = distinct "
             "(kind, type, strings); non-trivial = at least one argument or a non-blank raw line.")
     budget = {"quick": 10000, "thorough": 300000}
     time_budget = {"quick": 30, "thorough": 600}
@@ -273,6 +283,13 @@ class Check(PropertyCheck):
                 cm.parse_partial(line)
             elif step == "o":
                 cm.execute("t.v other 'line'")
+            elif step in ("t", "T"):
+                # exactly what the console prompt does; an exception here is the code's, and is left to surface
+                from mitmproxy.tools.console.commander import commander
+                cb = commander.CommandBuffer(_Master(cm), "")
+                cb.set_text(line)
+                cb.cycle_completion(step == "t"); cb.render()
+                cb.cycle_completion(step == "t"); cb.render()
             else:
                 execs.append(self._exec(cm, sink, line))
         toks = list(command_lexer.expr.parse_string(line, parse_all=True))
@@ -298,7 +315,7 @@ class Check(PropertyCheck):
             fails += self._oracle_one(case, obs, ex, i)
             # every execution of the same line on the same manager must deliver the same arguments
             if ex != obs["execs"][0]:
-                fails.append("rerun: execution %d of %r gave %r, the first one %r" % (i + 1, obs["line"], ex, obs["execs"][0]))
+                fails.append("rerun@%d: execution %d of %r gave %r, the first one %r" % (i, i + 1, obs["line"], ex, obs["execs"][0]))
         return fails
 
     def _oracle_one(self, case, obs, ex, run):
@@ -340,9 +357,10 @@ class Check(PropertyCheck):
     def known(self, case, obs, failure):
         """a finding's id only when the failing clause AND the delivered values are the recorded ones (recomputed here from the
         case and the observation with the harness's own quoting rule / scanner / unescape)"""
-        m = re.match(r"(arg-changed|split)@(\d+)(?:#(\w+))?:", failure)
+        m = re.match(r"([a-z-]+)@(\d+)(?:#(\w+))?:", failure)
         if not m or not isinstance(obs, dict) or int(m.group(2)) >= len(obs.get("execs", [])): return None
         kind, ex, ty = m.group(1), obs["execs"][int(m.group(2))], case["ty"]
+        if kind not in ("arg-changed", "split"): return None
         if kind == "arg-changed":
             if case["k"] != "args": return None
             want, x = case["args"], m.group(3)
@@ -443,8 +461,8 @@ class Check(PropertyCheck):
             extra = ["quote %s" % enc(a) for a in case["args"]]
         else:
             line, extra = case["line"], []
-        n = sum(1 for st in case.get("plan", ["x"]) if st == "x")
-        return ["exec %s" % enc(line)] * n + extra + ["lex %s" % enc(line)]
+        lines = ["exec %s" % enc(line)] * sum(1 for st in case.get("plan", ["x"]) if st == "x")
+        return lines + extra + ["lex %s" % enc(line)]
 
     def model_obs(self, case, replies):
         return replies
